@@ -928,10 +928,26 @@ func c17StopAsync(c *core.Ctx, pkg *packages.Package, trans []c17Transition) {
 		return
 	}
 	stmt := stmtOf(fn, sw.call.Expr)
-	t := an.Table{G: g, From: g.Locate(stmt), Atoms: []an.Atom{{Name: "switched", Values: []string{"T", "F"}}},
-		Binder:  &an.Binder{Fn: fn, Re: []an.ReRole{an.RE(`^recv\.switchState\(.*\)#0$`, "SWITCHED")}, Bool: map[string]string{"SWITCHED": "switched"}},
+	// rows: did the switch happen, and if not, which state did it report. serviceCancel exists only once the
+	// service has been Starting: a service reported Terminated may have got there straight from New (a
+	// concurrent StopAsync), so the cancel function must not be called then; for Starting/Running it must be
+	// called (the stop request would be lost otherwise); Stopping/Failed are past cancellation (either way is fine).
+	t := an.Table{G: g, From: g.Locate(stmt),
+		Atoms: []an.Atom{{Name: "switched", Values: []string{"T", "F"}}, {Name: "st", Values: []string{"Starting", "Running", "Stopping", "Terminated", "Failed"}}},
+		Binder: &an.Binder{Fn: fn, Re: []an.ReRole{an.RE(`^recv\.switchState\(.*\)#0$`, "SWITCHED"), an.RE(`^recv\.switchState\(.*\)#1$`, "REPORTED")},
+			Bool: map[string]string{"SWITCHED": "switched"}, Enum: map[string]string{"REPORTED": "st"}},
 		Targets: []an.Loc{g.Locate(cancel)}, Names: []string{"serviceCancel()"},
-		Want: func(r an.Row, _ int) an.Tri { return an.FromBool(r["switched"] == "F") }}
+		Want: func(r an.Row, _ int) an.Tri {
+			switch {
+			case r["switched"] == "T":
+				return an.F
+			case r["st"] == "Terminated":
+				return an.F
+			case r["st"] == "Starting" || r["st"] == "Running":
+				return an.T
+			}
+			return an.U
+		}}
 	res := t.Run()
 	// the switch attempt itself must not be gated on a previous read of the state being New
 	var stateReads []string
@@ -958,7 +974,7 @@ func c17StopAsync(c *core.Ctx, pkg *packages.Package, trans []c17Transition) {
 		}
 	}
 	_ = stateReads
-	c.Check(res.OK() && len(gated) == 0, "R9", "StopAsync:cancel-on-failed-switch", sw.call.Expr.Pos(), fmt.Sprintf("serviceCancel() executes ⇔ the atomic New→Terminated switch reported false (%s); the switch is attempted for every non-terminal state read before (not attempted when the earlier read said: %v) — a start racing with the stop cannot be lost", res.Summary(), gated), res.Rows+3)
+	c.Check(res.OK() && len(gated) == 0, "R9", "StopAsync:cancel-on-failed-switch", sw.call.Expr.Pos(), fmt.Sprintf("serviceCancel() executes when the atomic New→Terminated switch failed on a Starting/Running service, never after a successful switch and never when the switch reported Terminated — the service may never have been started, there is no cancel function then (%s); the switch is attempted for every non-terminal state read before (not attempted when the earlier read said: %v) — a start racing with the stop cannot be lost", res.Summary(), gated), res.Rows+3)
 }
 
 // c17FailureWatcher (R10): every failure callback registered by the FailureWatcher delivers its report with a blocking send
